@@ -308,6 +308,13 @@ fn cases(tier: Tier) -> Vec<Case> {
         push(&mut v, 2, vec![vec![B::Sub(0, 1), B::Sub(1, 1), p, B::Pub(1, 42)]], None);
         push(&mut v, 2, vec![vec![B::Sub(0, 1), p, B::Sub(1, 1), B::Pub(1, 42)]], None);
     }
+    // subscribers that terminated while someone still holds a strong handle to them (the
+    // broker cannot prune them): the live ones still get every publication
+    for p in pubs(41) {
+        let n = 3;
+        push(&mut v, n, vec![vec![B::Sub(0, 1), B::Sub(1, 1), B::Sub(2, 1), B::StopSub(0), p, B::Pub(1, 42)]], if q { Some(3) } else { None });
+        push(&mut v, n, vec![vec![B::Sub(0, 1), B::Sub(1, 1), B::Sub(2, 1), B::StopSub(0), B::StopSub(2), p, B::Pub(1, 42)]], if q { Some(3) } else { None });
+    }
     // two clients: subscriber management racing with publishing
     let b2: Option<u32> = if q { Some(5) } else { None };
     for p in pubs(41) {
@@ -344,6 +351,7 @@ pub fn property() -> Property {
         id: "C09",
         cases,
         clauses: &["delivered-to-subscribed", "not-delivered-to-unsubscribed", "common-order", "publisher-order", "broker-does-not-keep-alive"],
+        full_rerun_check: false,
         assumptions: &[
             "subscriber mailboxes are unbounded, so the broker's fan-out never blocks and its HashMap iteration order (std RandomState, not owned by the harness) cannot influence anything observable; the replay-divergence check guards this",
             "a subscribe made from a handler (Context::subscribe) counts as completed once a following ping to that actor returned",
